@@ -106,6 +106,11 @@ func (svr *TrustMatrixServer) Update(
 				return fmt.Errorf("invalid trustee %#v: %w",
 					entry.Trustee, err1)
 			}
+			if i < 0 || j < 0 {
+				return status.Errorf(codes.InvalidArgument,
+					"negative index in entry (%#v, %#v)",
+					entry.Truster, entry.Trustee)
+			}
 			entries = append(entries, sparse.CooEntry{
 				Row:    i,
 				Column: j,
